@@ -338,7 +338,14 @@ class Real(object):
         self.run(b'BLOAD "L.BIN",&H%X' % off)
 
     def out(self, port, v):
-        self.run(b'OUT &H%X,%d' % (port, v))
+        # select the register through its index port first, as a program would (map mask = sequencer
+        # register 2, read map select = graphics controller register 4)
+        if port == 0x3c5:
+            self.run(b'OUT &H3C4,2:OUT &H3C5,%d' % v)
+        elif port == 0x3cf:
+            self.run(b'OUT &H3CE,4:OUT &H3CF,%d' % v)
+        else:
+            self.run(b'OUT &H%X,%d' % (port, v))
 
     def rect(self, page, x0, y0, x1, y1, c):
         self.run(b'SCREEN ,,%d,0:LINE (%d,%d)-(%d,%d),%d,BF:SCREEN ,,0,0' % (page, x0, y0, x1, y1, c))
@@ -701,6 +708,49 @@ def big_history(cfg, lay, np, rng):
     return ops
 
 
+def plane_sweep_history(cfg, lay, np, rng):
+    """planar modes: a different byte on every plane at the same addresses (one plane enabled at a time, then
+    overlapping masks), read back with every read-select value; oracle = POKE-then-PEEK per plane, the other
+    planes keep their bytes, unused planes read 0 and ignore writes"""
+    base, ps = lay.base, lay.page_size
+    ops = []
+    maxc = 3 if lay.screen == 10 or (cfg[0] == 'ega64k' and lay.screen == 9) else 15
+    ops.append(['R', 0, 5, 0, lay.w - 9, 6, rng.randrange(1, maxc + 1)])
+    # last page that lies inside the video window A0000..BFFFF
+    last = min(np, (0xC0000 - base) // ps) - 1
+    ops.append(['R', last, 0, 0, lay.w - 1, 3, rng.randrange(1, maxc + 1)])
+    addrs = [base + rng.choice([0, 1, lay.bpr - 1, lay.bpr + 2, 1000]),
+             base + last * ps + lay.bpr * rng.randrange(0, 3) + rng.randrange(lay.bpr)]
+    values = rng.sample([0x5A, 0xA5, 0x3C, 0xC3, 0x0F, 0xF0, 0x81, 0x7E, 0x99, 0x66, 0xFF, 0x01], 4)
+    for a in addrs:
+        order = list(range(4))
+        rng.shuffle(order)
+        for pl in order:
+            ops.append(['M', 1 << pl])
+            ops.append(['P', pl])
+            ops.append(['p', a, values[pl]])
+            for r in range(4):
+                ops.append(['P', r])
+                ops.append(['k', a])
+        # every read-select value incl. the ones above 3, single and block reads
+        for r in [0, 1, 2, 3, rng.choice([4, 5, 6, 7]), rng.choice([7, 11, 255])]:
+            ops.append(['P', r])
+            ops.append(['k', a])
+            ops.append(['g', a - 1, 3])
+        values = values[1:] + values[:1]
+    # overlapping masks: two planes at once, block write, then each plane again
+    a = addrs[0] + 4
+    for mask in (rng.choice([3, 5, 6, 9, 10, 12]), rng.choice([0, 7, 11, 13, 14, 15, 255])):
+        ops.append(['M', mask])
+        ops.append(['s', a - 2, bytes(rng.randrange(256) for _ in range(6)).hex()])
+        for r in range(4):
+            ops.append(['P', r])
+            ops.append(['g', a - 3, 8])
+    ops.append(['M', 255])
+    ops.append(['P', 0])
+    return ops
+
+
 def edge_differential(ctx, cfg):
     """Memory._get_memory_block against single reads across the edges of the video window (no oracle model:
     pure block-vs-byte comparison of the splitting code in machine.py)"""
@@ -748,10 +798,17 @@ def screen10_bit0(ctx):
                 vals.append(A.peek(0xA0000, None))
             seen[attr] = tuple(vals)
         ctx.case(('screen10', 'planes'))
-        if len(set(seen.values())) < 4:
+        # the recorded deviation (known finding C34-F1), exactly: planes 1 and 3 carry attribute bits 1 and 3,
+        # attribute bit 0 is on no plane.  Anything else read here is a different failure with its own key.
+        known_f1 = {0: (0, 0, 0, 0), 1: (0, 0, 0, 0), 2: (0, 255, 0, 0), 3: (0, 255, 0, 0)}
+        if seen == known_f1:
             ctx.fail('screen10-attribute-bit0-not-in-video-memory', {'special': 'screen10'},
                      'SCREEN 10: PEEK over planes 0..3 of 8 pixels of attribute 0,1,2,3 gives %r: attributes are not '
                      'distinguishable in video memory' % (seen,))
+        elif len(set(seen.values())) < 4 or any(v[2] for v in seen.values()):
+            ctx.fail('screen10-plane-readback', {'special': 'screen10'},
+                     'SCREEN 10: PEEK over read-select 0..3 of 8 pixels of attribute 0,1,2,3 gives %r (neither a '
+                     'faithful encoding nor the recorded deviation %r)' % (seen, known_f1))
     finally:
         if A is not None:
             A.close()
@@ -801,6 +858,12 @@ def run(ctx):
             ctx.count('big-histories')
         if not ctx.quick or ci % 7 == 0:
             edge_differential(ctx, cfg)
+        # every planar mode (SCREEN 7-9 of ega/ega64k/vga, SCREEN 10 of ega mono), in both tiers
+        if lay.kind == 'planar':
+            for h in range(1 if ctx.quick else 3):
+                run_history(ctx, cfg, plane_sweep_history(cfg, lay, np, rng), use_model=True,
+                            label='%s/%d plane sweep' % (adapter, screen))
+                ctx.count('plane-sweep-histories')
     screen10_bit0(ctx)
     ctx.notes['configurations'] = len(configs)
 
